@@ -4,14 +4,12 @@
 From Coq Require Import List NArith Bool PeanoNat.
 From V.common Require Import Wire.
 From V.Mgr Require Model.
-From V.C07 Require Import Model.
+From V.Ts Require Import Report.
+From V.C07 Require Import Model Block.
 Import ListNotations.
 Open Scope N_scope.
 
 
-
-Definition mask_of (n : nat) (m : N) : list bool :=
-  map (fun i => N.testbit m (N.of_nat i)) (seq 0 n).
 
 (* events of one operation as (protocol, kind): 1 established 2 closed 3 inbound substream
    4 outbound substream 5 substream open failure *)
@@ -44,7 +42,7 @@ Definition ustep (n : nat) (u : ustate) (o : N * (N * N)) : ustate * list N :=
   match op with
   | 1 => (mkU (set_nth ai false (u_alive u)) (u_mgr u), NA)
   | 5 => (mkU (u_alive u) false, NA)
-  | 2 => let '(ns, ok) := report_established (u_alive u) (mask_of n b) in
+  | 2 => let '(ns, ok) := report_established (u_alive u) in
          (u, b2n (negb ok) :: enc_notes ns ++ [0])
   | 3 => let '(ns, ok) := report_closed (u_alive u) (u_mgr u) in
          (u, b2n (negb ok) :: enc_notes ns ++ [0])
@@ -177,14 +175,14 @@ Definition dial_code (ret : N) : N :=
   if ret =? V.Mgr.Model.RET_OK then 0 else if ret =? V.Mgr.Model.RET_CONNECTED then 3 else 9.
 
 (* a connection reaches the manager of node w (peer `p`, id `c`) and is accepted *)
-Definition establish (n : nat) (w : wnode) (p : V.Mgr.Model.peer) (c : V.Mgr.Model.conn) (listener : bool) (mask : N)
+Definition establish (n : nat) (w : wnode) (p : V.Mgr.Model.peer) (c : V.Mgr.Model.conn) (listener : bool)
   : wnode * list obs :=
   let '(w1, (os, o1)) := wstep n w (NMgr (V.Mgr.Model.TrEstablished p c V.Mgr.Model.TCP listener false)) in
   if has_accept c os then
-    let '(w2, o2) := wsteps n w1 [NAccept c (mask_of (n + 3) mask)] in (w2, o1 ++ o2)
+    let '(w2, o2) := wsteps n w1 [NAccept c] in (w2, o1 ++ o2)
   else (w1, o1).
 
-Definition do_connect (n : nat) (ma mb : N) (w : world) : world * (N * ev2) :=
+Definition do_connect (n : nat) (w : world) : world * (N * ev2) :=
   if negb (w_up (wa w)) then (w, (2, ([], []))) else
   let '(a1, (os, oa1)) := wstep n (wa w) (NMgr (V.Mgr.Model.CmdDialAddr PB V.Mgr.Model.TCP false)) in
   let rc := dial_code (find_ret os) in
@@ -192,10 +190,10 @@ Definition do_connect (n : nat) (ma mb : N) (w : world) : world * (N * ev2) :=
   | None => (mkWorld a1 (wb w), (rc, (oa1, [])))
   | Some c =>
       if w_up (wb w) then
-        let '(a2, oa2) := establish n a1 PB c false ma in
+        let '(a2, oa2) := establish n a1 PB c false in
         let cb := V.Mgr.Model.next_conn (nd_mgr (w_nd (wb w))) in
         let '(b1, ob1) := wsteps n (wb w) [NMgr V.Mgr.Model.AllocConn; NMgr (V.Mgr.Model.TrPendingInbound cb V.Mgr.Model.TCP)] in
-        let '(b2, ob2) := establish n b1 PA cb true mb in
+        let '(b2, ob2) := establish n b1 PA cb true in
         let '(w3, o3) := after n (mkWorld a2 b2) in
         (w3, (rc, app2 (oa1 ++ oa2, ob1 ++ ob2) o3))
       else
@@ -271,35 +269,31 @@ Definition do_shutdown (n : nat) (w : world) : world * (N * ev2) :=
     let '(w2, o2) := after n (mkWorld (wa w) (mkW (w_nd (wb w)) (w_pconn (wb w)) false)) in (w2, (0, o2))
   else (w, (2, ([], []))).
 
-(* A dials B while protocol y of node x exits. Both orders are legitimate; the implementation's
-   choice comes in as an oracle: c = 0 the connection was accepted first, else c = 1 + 2*maskA +
-   256*maskB and the exit came first. The racing protocol's own observer is not printed (it may or
-   may not read its last events before it exits). *)
+(* A dials B while protocol y of node x exits. Whichever comes first, the connection is accepted
+   (a protocol that has exited is skipped) and everybody else sees the same; only the racing
+   protocol's own observer differs (it may or may not read its last events before it exits), so it
+   is not printed. *)
 Definition drop_obs (x : N) (y : nat) (o : ev2) : ev2 :=
   let f := filter (fun p : obs => negb (fst p =? S y)%nat) in
   if x =? 0 then (f (fst o), snd o) else (fst o, f (snd o)).
 
-Definition do_race (n : nat) (x : N) (y : nat) (c : N) (w : world) : world * (N * ev2) :=
-  if N.odd c then
-    let '(w1, (_, o1)) := do_drop n x y w in
-    let '(w2, (rc, o2)) := do_connect n ((c / 2) mod 128) (c / 256) w1 in
-    (w2, (rc, drop_obs x y (app2 o1 o2)))
-  else
-    let '(w1, (rc, o1)) := do_connect n 0 0 w in
-    let '(w2, (_, o2)) := do_drop n x y w1 in
-    (w2, (rc, drop_obs x y (app2 o1 o2))).
+Definition do_race (n : nat) (x : N) (y : nat) (w : world) : world * (N * ev2) :=
+  let '(w1, (rc, o1)) := do_connect n w in
+  let '(w2, (_, o2)) := do_drop n x y w1 in
+  (w2, (rc, drop_obs x y (app2 o1 o2))).
 
 Definition estep (n : nat) (w : world) (s : N * (N * (N * N))) : world * (N * ev2) :=
   let '(op, (a, (b, c))) := s in
   match op with
   | 10 => do_drop n a (N.to_nat b) w
-  | 11 => do_connect n b c w
+  | 11 => do_connect n w
   | 12 => do_open n a (N.to_nat b) false w
   | 13 => do_open n a (N.to_nat b) true w
-  | 14 => do_race n a (N.to_nat b) c w
+  | 14 => do_race n a (N.to_nat b) w
   | 15 => do_force n a (N.to_nat b) w
   | 16 => do_cut n w
   | 17 => do_idle n w
+  | 20 => do_idle n w      (* idle expiry while the other side keeps opening refused substreams *)
   | 18 => do_shutdown n w
   | _ => (w, (2, ([], [])))
   end.
@@ -336,9 +330,113 @@ Definition p_estep : parser (N * (N * (N * N))) :=
 
 Definition decode_e2e (l : list N) : option (nat * (N * list (N * (N * (N * N))))) :=
   pall (let* n := pN in let* ka := pN in let* steps := plist p_estep in
-        (* ka: bit 0 = short keep-alive, bits 1-2 = transport (0 TCP, 1 WebSocket, 2 QUIC); the model
-           is the same for all of them *)
-        if (1 <=? n) && (n <=? 4) && (ka <? 6) then pret (N.to_nat n, (ka, steps)) else pfail) l.
+        (* ka: bit 0 = short keep-alive, bits 1-2 = transport (0 TCP, 1 WebSocket, 2 QUIC), bit 3 =
+           TCP_NODELAY, bit 4 = two worker threads per node; the model is the same for all of them *)
+        if (1 <=? n) && (n <=? 4) && (ka <? 32) && ((ka / 2) mod 4 <? 3) then pret (N.to_nat n, (ka, steps)) else pfail) l.
+
+(* ------------------------------------------------------------------------------------------ *)
+(* kind 2: back-pressure. Real ProtocolSets (one per connection) report into protocol channels of
+   a small capacity that are drained only when the case says so; a report that finds no room
+   waits, and with it its connection. After every operation every parked report that can proceed
+   does (the harness runs its runtime until idle): BResume for every connection.
+   case  = 2 n cap nops (op a b)*     op: 1 accept connection a | 2 the loop of a handles an event:
+           b = 0 the connection ended, b = i+1 an outbound substream of protocol i failed | 4 protocol
+           a receives b events | 5 protocol a exits
+   trace = 1 (rc  nout (kind conn)*  ngot (kind conn)*  (qlen)*n  nconn (conn phase)* )*
+           out kind: 1 accept future resolved, 2 manager told closed; got kind: 1 established 2 closed
+           5 substream open failure; phase: 0 accept waits 1 running 2 substream report waits
+           3 closed report waits 4 gone *)
+
+Definition phase_code (p : phase) : N :=
+  match p with PWaitEst => 0 | PRun => 1 | PWaitSub => 2 | PWaitClosed => 3 | PDone => 4 end.
+
+Definition enc_item (it : item) : list N :=
+  match it with
+  | IEst c => [1; c] | IClosed c => [2; c] | IOpened c _ => [3; c] | IFailure c _ => [5; c]
+  end.
+Definition enc_bout (o : bout) : list N :=
+  match o with OAccepted c => [1; c] | OMgrClosed c => [2; c] end.
+
+Definition conn_ids (s : bsys) : list N := sort_by (fun x => x) (map fst (s_conns s)).
+
+Definition resume_all (s : bsys) : bsys * list bout :=
+  fold_left (fun acc c => let '(s1, o1) := bstep (fst acc) (BResume c) in (s1, snd acc ++ o1))
+            (conn_ids s) (s, []).
+
+Definition bout_key (o : bout) : N := match o with OAccepted c => 2 * c | OMgrClosed c => 2 * c + 1 end.
+
+Definition block_dump (s : bsys) : list N :=
+  map (fun ch => N.of_nat (length (rq ch))) (s_ch s) ++
+  N.of_nat (length (s_conns s)) ::
+  flat_map (fun c => match find_c c (s_conns s) with
+                     | Some b => [c; phase_code (b_ph b)] | None => [] end) (conn_ids s).
+
+Definition all_del (s : bsys) : list nat := map (fun ch => length (rdel ch)) (s_ch s).
+
+Definition bop_ev (o : N * (N * N)) : option bev :=
+  let '(op, (a, b)) := o in
+  match op with
+  | 1 => Some (BAccept a)
+  | 2 => Some (BLoop a (if b =? 0 then EYamux YEof else ENeg (NegFail (N.to_nat (b - 1)))))
+  | 4 => Some (BRecv (N.to_nat a) (N.to_nat b))
+  | 5 => Some (BDie (N.to_nat a))
+  | _ => None
+  end.
+
+(* was the operation applicable? (the harness cannot start a report on a connection that is
+   parked, gone or unknown, nor accept a known connection) *)
+Definition bop_rc (s : bsys) (o : N * (N * N)) : N :=
+  let '(op, (a, b)) := o in
+  match op with
+  | 1 => match find_c a (s_conns s) with Some _ => 2 | None => 0 end
+  | 2 => match find_c a (s_conns s) with
+         | Some bc => match b_ph bc with PRun => 0 | _ => 2 end
+         | None => 2
+         end
+  | _ => 0
+  end.
+
+Definition bstep_trace (s : bsys) (o : N * (N * N)) : bsys * list N :=
+  match bop_ev o with
+  | None => (s, [2])
+  | Some e =>
+      let rc := bop_rc s o in
+      let '(s1, o1) := bstep s e in
+      let '(s2, o2) := resume_all s1 in
+      let outs := sort_by bout_key (o1 ++ o2) in
+      let got := match e with
+                 | BRecv p _ => skipn (nth p (all_del s) O) (rdel (nth p (s_ch s2) (mkRc [] [] [] [])))
+                 | _ => []
+                 end in
+      (s2, rc :: N.of_nat (length outs) :: flat_map enc_bout outs ++
+           N.of_nat (length got) :: flat_map enc_item got ++ block_dump s2)
+  end.
+
+Fixpoint brun_trace (s : bsys) (ops : list (N * (N * N))) : list N :=
+  match ops with
+  | [] => []
+  | o :: r => let '(s1, t) := bstep_trace s o in t ++ brun_trace s1 r
+  end.
+
+Definition p_bop (n : nat) : parser (N * (N * N)) :=
+  let* op := pN in let* a := pN in let* b := pN in
+  if ((op =? 1) && (a <? 1000)) ||
+     ((op =? 2) && (a <? 1000) && (b <=? N.of_nat n)) ||
+     ((op =? 4) && (a <? N.of_nat n) && (b <? 1000)) ||
+     ((op =? 5) && (a <? N.of_nat n))
+  then pret (op, (a, b)) else pfail.
+
+Definition decode_block (l : list N) : option (nat * (nat * list (N * (N * N)))) :=
+  match l with
+  | n :: cap :: r =>
+      if (1 <=? n) && (n <=? 6) && (1 <=? cap) && (cap <=? 8) then
+        match pall (plist (p_bop (N.to_nat n))) r with
+        | Some ops => Some (N.to_nat n, (N.to_nat cap, ops))
+        | None => None
+        end
+      else None
+  | _ => None
+  end.
 
 (* ------------------------------------------------------------------------------------------ *)
 
@@ -354,6 +452,11 @@ Definition run_case (l : list N) : list N :=
       | Some (n, (_, steps)) =>
           let '(w, t) := erun n (world_init n) steps in
           1 :: t ++ [final_dial n (wa w) PB; final_dial n (wb w) PA]
+      | None => [0]
+      end
+  | 2 :: r =>
+      match decode_block r with
+      | Some (n, (cap, ops)) => 1 :: brun_trace (binit n cap) ops
       | None => [0]
       end
   | _ => [0]
@@ -478,9 +581,13 @@ Definition estep_ok (n : nat) (p : pst) (s : N * (N * (N * N))) (rc : N) (la lb 
          then no_closed la && no_closed lb else true) &&
         (* a new connection is announced on both sides *)
         (if ((op =? 11) || (op =? 14)) && p_bup p && negb appa0 && negb appb0
-         then (rc =? 0) && appa && appb else true) &&
+         then (rc =? 0) &&
+              (* ... and stays, unless a node has no protocol left to keep it open *)
+              (if existsb (fun x => x) (fst al1) && existsb (fun x => x) (snd al1)
+               then appa && appb else Bool.eqb appa appb)
+         else true) &&
         (* termination causes terminate *)
-        (if ((op =? 15) && (rc =? 0)) || (op =? 16) || (op =? 17) || ((op =? 18) && (rc =? 0))
+        (if ((op =? 15) && (rc =? 0)) || (op =? 16) || (op =? 17) || (op =? 20) || ((op =? 18) && (rc =? 0))
          then negb appa && (negb bup1 || negb appb) else true) in
       if ok then Some (mkP (ca, cb) al1 bup1) else None
   | _, _ => None
@@ -500,6 +607,62 @@ Fixpoint erun_ok (n : nat) (p : pst) (steps : list (N * (N * (N * N))))
       end
   | _, _ => None
   end.
+
+(* -- kind 2 -- *)
+Definition p_pair : parser (N * N) := let* a := pN in let* b := pN in pret (a, b).
+(* rc, outputs (kind, conn), received (kind, conn), queue lengths, (conn, phase) *)
+Definition p_bres (n : nat) : parser (N * (list (N * N) * (list (N * N) * (list N * list (N * N))))) :=
+  let* rc := pN in let* outs := plist p_pair in let* got := plist p_pair in
+  let* ql := prep n pN in let* cs := plist p_pair in pret (rc, (outs, (got, (ql, cs)))).
+
+Definition pair_eqb (a b : N * N) : bool := (fst a =? fst b) && (snd a =? snd b).
+Definition count_pair (x : N * N) (l : list (N * N)) : nat := length (filter (pair_eqb x) l).
+
+(* what protocol p received about connection c, in order: established, then closed, each at most
+   once, nothing after closed *)
+Fixpoint recv_ok (seen_est seen_closed : list N) (l : list (N * N)) : bool :=
+  match l with
+  | [] => true
+  | (k, c) :: r =>
+      if existsb (N.eqb c) seen_closed then false
+      else if k =? 1 then negb (existsb (N.eqb c) seen_est) && recv_ok (c :: seen_est) seen_closed r
+      else if k =? 2 then existsb (N.eqb c) seen_est && recv_ok seen_est (c :: seen_closed) r
+      else existsb (N.eqb c) seen_est && recv_ok seen_est seen_closed r
+  end.
+
+Definition block_ok (n : nat) (ops : list (N * (N * N)))
+           (rs : list (N * (list (N * N) * (list (N * N) * (list N * list (N * N)))))) : bool :=
+  let outs_upto := fun k => flat_map (fun r => fst (snd r)) (firstn k rs) in
+  let all_outs := outs_upto (length rs) in
+  let conns := match last rs (0, ([], ([], ([], [])))) with (_, (_, (_, (_, cs)))) => cs end in
+  let ql_end := match last rs (0, ([], ([], ([], [])))) with (_, (_, (_, (ql, _)))) => ql end in
+  let killed := flat_map (fun o => if fst o =? 5 then [fst (snd o)] else []) ops in
+  let got_of := fun p : N => flat_map (fun or => if (fst (fst or) =? 4) && (fst (snd (fst or)) =? p)
+                                              then fst (snd (snd (snd or))) else [])
+                                   (combine ops rs) in
+  (* the manager is told at most once per connection, the accept resolves at most once *)
+  forallb (fun c => Nat.leb (count_pair (2, fst c) all_outs) 1 && Nat.leb (count_pair (1, fst c) all_outs) 1) conns &&
+  (* told closed only by a task that is gone; never while its closed report is still waiting *)
+  forallb (fun k =>
+     match nth_error rs k with
+     | Some (_, (outs, (_, (_, cs)))) =>
+         forallb (fun o => negb (fst o =? 2) || existsb (pair_eqb (snd o, 4)) cs) outs &&
+         forallb (fun cp => negb (snd cp =? 3) || Nat.eqb (count_pair (2, fst cp) (outs_upto (S k))) 0) cs
+     | None => true
+     end) (seq 0 (length rs)) &&
+  (* every protocol sees a well-formed stream per connection *)
+  forallb (fun p => recv_ok [] [] (got_of (N.of_nat p))) (seq 0 n) &&
+  (* when everything has been received at the end, nobody is left waiting, every task that is gone
+     has told the manager exactly once, and every protocol still running was told closed *)
+  (if forallb (N.eqb 0) ql_end then
+     forallb (fun cp => negb ((snd cp =? 0) || (snd cp =? 2) || (snd cp =? 3)) &&
+                        (if snd cp =? 4 then Nat.eqb (count_pair (2, fst cp) all_outs) 1 else true) &&
+                        Nat.eqb (count_pair (1, fst cp) all_outs) 1 &&
+                        (if snd cp =? 4 then
+                           forallb (fun p => existsb (N.eqb (N.of_nat p)) killed ||
+                                             Nat.eqb (count_pair (2, fst cp) (got_of (N.of_nat p))) 1) (seq 0 n)
+                         else true)) conns
+   else true).
 
 Definition pst_init (n : nat) : pst :=
   mkP (repeat false (n + 2), repeat false (n + 2)) (repeat true (n + 3), repeat true (n + 3)) true.
@@ -532,46 +695,24 @@ Definition prop_ok (case trace : list N) : bool :=
           end
       | None => false
       end
+  | 2 :: r, 1 :: body =>
+      match decode_block r with
+      | Some (n, (_, ops)) =>
+          match pall (prep (length ops) (p_bres n)) body with
+          | Some rs => block_ok n ops rs
+          | None => false
+          end
+      | None => false
+      end
   | _, [0] => match case with
               | 0 :: r => match decode_unit r with None => true | Some _ => false end
               | 1 :: r => match decode_e2e r with None => true | Some _ => false end
+              | 2 :: r => match decode_block r with None => true | Some _ => false end
               | _ => true
               end
   | _, _ => false
   end.
 
-(* Known finding class 1 (F-C07b): a connection is established while a protocol of the node has
-   exited. The transports hold a snapshot of the protocol senders, report_connection_established
-   fails on the dead one, the manager rolls the connection back. Recognised exactly: the case
-   contains such an attempt, and the trace is the one the faithful model predicts. *)
-Fixpoint unit_in_class (u : ustate) (n : nat) (ops : list (N * (N * N))) : bool :=
-  match ops with
-  | [] => false
-  | o :: r => ((fst o =? 2) && negb (all_alive (u_alive u))) || unit_in_class (fst (ustep n u o)) n r
-  end.
-
-Fixpoint e2e_in_class (n : nat) (w : world) (steps : list (N * (N * (N * N)))) : bool :=
-  match steps with
-  | [] => false
-  | s :: r =>
-      (((fst s =? 11) || (fst s =? 14)) && w_up (wa w) && w_up (wb w) &&
-       negb (all_alive (nd_alive (w_nd (wa w))) && all_alive (nd_alive (w_nd (wb w))))) ||
-      (* the exit won the race against the accept *)
-      ((fst s =? 14) && w_up (wa w) && w_up (wb w) && N.odd (snd (snd (snd s)))) ||
-      e2e_in_class n (fst (estep n w s)) r
-  end.
-
-Definition known_class (case trace : list N) : N :=
-  let in_class :=
-    match case with
-    | 0 :: r => match decode_unit r with
-                | Some (n, ops) => unit_in_class (mkU (repeat true n) true) n ops
-                | None => false
-                end
-    | 1 :: r => match decode_e2e r with
-                | Some (n, (_, steps)) => e2e_in_class n (world_init n) steps
-                | None => false
-                end
-    | _ => false
-    end in
-  if in_class && nlist_eqb trace (run_case case) then 1 else 0.
+(* No known-finding classes any more (F-C07a and F-C07b are repaired): every failing case is a
+   violation. *)
+Definition known_class (case trace : list N) : N := 0.
